@@ -260,9 +260,22 @@ def rule_d(ctx: Ctx):
         okn = inc and bool(last) and all(l.cmp()[1] == "!=0" for l in last) and any(l.conj and l.sign > 0 for l in fin)
         whyn = f"where(finished & next_op != end_op, next_op + 1, next_op): increment {inc}, not-last {bool(last)}, finished {bool(fin)}"
     ctx.ob("C07.d", "FJSPEnv._transit:next-op", okn, sl.where, whyn, construct="FJSPEnv._transit_to_next_time:next_op")
-    # done from the updated job_done
+    # job_done' = job_done | (in process & finished-by-now & next_op == end_op): a job completes exactly when its *last* operation is released
     d = sl.cell("done")
     jd = sl.cell("job_done")
+    leaves = nf.boolwalk(jd, TS.BOOL_CELLS)
+    ops = [tuple(p[1] for p in l.path) for l in leaves]
+    old = [l for l, o in zip(leaves, ops) if l.node.op == "cell0" and l.node.args[1] == "job_done"]
+    rest = [(l, o) for l, o in zip(leaves, ops) if not (l.node.op == "cell0" and l.node.args[1] == "job_done")]
+    okj = len(old) == 1 and old[0].sign > 0 and all(o == "or" for o in ops[leaves.index(old[0])]) and len(ops[leaves.index(old[0])]) >= 1
+    lastl = [l for l, o in rest if l.cmp() is not None and {"next_op", "end_op_per_job"} <= vg.cells_of(l.node)]
+    finl = [l for l, o in rest if l.cmp() is not None and "finish_times" in vg.cells_of(l.node)]
+    inl = [l for l, o in rest if l.node.op == "cell0" and l.node.args[1] == "job_in_process"]
+    conj_under_or = all(o and o[0] == "or" and all(x == "and" for x in o[1:]) and l.sign > 0 for l, o in rest)
+    okj = okj and len(rest) == 3 and len(lastl) == 1 and lastl[0].cmp()[1] == "==0" and len(finl) == 1 and finl[0].cmp()[1] == ">=0" and len(inl) == 1 and conj_under_or
+    ctx.ob("C07.d", "FJSPEnv._transit:job-done", okj, sl.where,
+           f"job_done' = job_done | (job_in_process & finish_times[next_op] <= time & next_op == end_op_per_job): literals {[repr(l)[:70] for l in leaves]}, connectives {ops}",
+           construct="FJSPEnv._transit_to_next_time:job_done")
     okd = any(n.id == jd.id for n in vg.walk(d)) and jd.op != "cell0"
     ctx.ob("C07.d", "FJSPEnv._transit:done", okd, sl.where, "done = job_done'.all(1)", construct="FJSPEnv._transit_to_next_time:done")
 
